@@ -474,7 +474,7 @@ PY_BUILTINS = {'itertools', 'reversed', 'len', 'int', 'bool', 'bytes', 'bytearra
                'list', 'tuple', 'set', 'super', 'all', 'any', 'ValueError', 'TypeError', 'NotImplementedError', 'Exception',
                'IndexError', 'KeyError', 'hashlib', 'math', 'binascii', 'os', 'str', 'getattr', 'setattr', 'chr', 'ord',
                'abs', 'enumerate', 'zip', 'sorted', 'next', 'hasattr', 'dict', 'divmod', 'object', 'OverflowError',
-               'AttributeError', 'StopIteration', 'NotImplemented', 'PGPError', 'RuntimeError', 'UnicodeDecodeError', 'AssertionError', 'ZeroDivisionError', 'callable', 'type', 'id', 'print'}
+               'AttributeError', 'StopIteration', 'delattr', 'NotImplemented', 'PGPError', 'RuntimeError', 'UnicodeDecodeError', 'AssertionError', 'ZeroDivisionError', 'callable', 'type', 'id', 'print'}
 
 BL = z3.Function('BL', z3.IntSort(), z3.IntSort())
 BE = z3.Function('BE', z3.IntSort(), z3.IntSort(), BYTES)
@@ -497,6 +497,7 @@ class Exec:
         self.hooks = {}        # (class qualname, attr) -> fn(ex, st, selfobj, args) -> [(st, value)]
         self.safety_names = itertools.count()
         self.spec_depth = 0
+        self.fhooks = {}           # qualified module-level function name -> callee contract callable(ex, st, None, args)
         self.loops = {}            # (function name, loop ordinal) -> {'inv', 'havoc', 'variant'} callables
         self._loop_ordinals = {}
         self.deadline = time.time() + float(os.environ.get('PYVC_GEN_BUDGET_S', '90'))
@@ -775,6 +776,8 @@ class Exec:
         q = self.repo.resolve_name(mod, n.id)
         if q in self.repo.classes:
             return [(st, VClass(q))]
+        if q in self.fhooks:
+            return [(st, VBuiltin('hook', bound=(self.fhooks[q], None)))]
         if q in self.repo.functions:
             fmod = q.rsplit('.', 1)[0]
             return [(st, VFunc(self.repo.functions[q], None, mod=fmod))]
@@ -1637,7 +1640,7 @@ class Exec:
                             raise ToolLimit('copy of %s without __copy__' % x.cls)
                         return self.call(m, [], {}, s2, ctx, n, env)
                 raise ToolLimit('copy.copy of %s' % type(x).__name__)
-            if name == 'collections.namedtuple':
+            if name in ('collections.namedtuple', 'namedtuple'):
                 fields = [x.s for x in self.items(A[1], st)]
                 return [(st, VBuiltin('namedtuple', bound=('nt', A[0].s, tuple(fields))))]
             if name in ('binascii.hexlify', 'binascii.unhexlify', 'binascii.b2a_hex', 'binascii.a2b_hex'):
@@ -1713,6 +1716,25 @@ class Exec:
                 raise ToolLimit('ceil of non-constant')
             if name == 'int.from_bytes':
                 return self.from_bytes(A[0], st)
+            if name == 'os.urandom':
+                nn = self.as_int(A[0])
+                R = fresh('RAND', BYTES)
+                st.facts.append(z3.Length(R) == z3.If(nn > 0, nn, 0))
+                draws = list(st.ghost.get('rand', ()))
+                draws.append((nn, R))
+                st.ghost['rand'] = tuple(draws)
+                return [(st, VBytes(R))]
+            if name == 'delattr':
+                if not (isinstance(A[1], VStr) and isinstance(A[1].s, str)) or not isinstance(A[0], VObj):
+                    raise ToolLimit('delattr shape')
+                st.heap.pop((A[0].ref, A[1].s), None)
+                st.ghost.setdefault('deleted', []).append((A[0].ref, A[1].s))
+                return [(st, VNone())]
+            if name == 'sum' and isinstance(A[0], (VBytes, VBuf)):
+                SUMOCT = z3.Function('SUM_OF_OCTETS', BYTES, z3.IntSort())
+                t = SUMOCT(self.seq(A[0], st))
+                st.facts.append(t >= 0)
+                return [(st, VInt(t))]
             if name == 'sum':
                 its = self.iter_items(A[0], st)
                 return [(st, VInt(zsum([self.as_int(x) for x in its])))]
@@ -1871,6 +1893,11 @@ class Exec:
         if ks is None:
             t = B2I(S)
             st.facts.append(t >= 0)
+            # defining instances for short operands (guarded by the length), so that fixed-width fields decode exactly
+            for k in range(0, 5):
+                els = [S[j] for j in range(k)]
+                val = zsum([els[j] * 256 ** (k - 1 - j) for j in range(k)]) if els else z3.IntVal(0)
+                st.facts.append(z3.Implies(L == k, z3.And(t == val, *[z3.And(e >= 0, e < 256) for e in els])))
             return [(st, VInt(t))]
         res = []
         for kv in ks:
@@ -2060,6 +2087,8 @@ class Exec:
 
     def st_Raise(self, n, env, st, ctx):
         name = 'Exception'
+        if n.exc is None and ctx.get('caught') is not None:
+            return [(st, ctx['caught'])]
         if n.exc is not None:
             e = n.exc.func if isinstance(n.exc, ast.Call) else n.exc
             name = ast.unparse(e)
@@ -2287,7 +2316,9 @@ class Exec:
             if isinstance(c, Raise):
                 for h in n.handlers:
                     if self.exc_matches(c.exc, h.type):
-                        res = self.block(h.body, env, s, ctx)
+                        if h.name:
+                            s.envs[env.eid][h.name] = VExt('exception:' + c.exc.split(':')[0], ())
+                        res = self.block(h.body, env, s, dict(ctx, caught=c))
                         break
                 else:
                     res = [(s, c)]
